@@ -489,7 +489,10 @@ class G:
         c.append((2, sub))
         if m.get("sym") and m["r"] >= 3:
             # a square OFF-diagonal block of a symmetric matrix: it is not symmetric itself
-            c.append((2, lambda: ["msub", base if self.draw(st.booleans()) else ["T", base], [0, 2, None], [1, 3, None]]))
+            def offdiag():
+                blk = ["msub", base if self.draw(st.booleans()) else ["T", base], [0, 2, None], [1, 3, None]]
+                return ["T", blk] if self.draw(st.integers(0, 2)) == 0 else blk
+            c.append((4, offdiag))
         if "expr" in classes and depth > 0:
             c.append((4, lambda: self.mbin(depth)))
             c.append((1, lambda: ["mneg", self.M(depth - 1)]))
